@@ -192,9 +192,42 @@ def lower_records(trees, report):
         if new == param_types:
             break
         param_types = new
+    # all or nothing per record type: an attribute named like a field on a receiver that is not known to hold the
+    # record (outside call position: a method of something else, e.g. list.index) makes the type ambiguous
+    typed_by_fn = {}
+    for K, info in list(recs.items()):
+        fields = info["fields"]
+        ambiguous = False
+        for rel, tree in trees.items():
+            callfuncs = {id(n.func) for n in ast.walk(tree) if isinstance(n, ast.Call)}
+            for q, fnode, cls in functions_of(tree):
+                typed = set()
+                for a_ in fnode.args.args + fnode.args.kwonlyargs + fnode.args.posonlyargs:
+                    if _ann_is(a_.annotation, K) or param_types.get((fnode.name, cls is not None, a_.arg)) == K:
+                        typed.add(a_.arg)
+                for _ in range(3):
+                    for n in ast.walk(fnode):
+                        if isinstance(n, ast.AnnAssign) and isinstance(n.target, ast.Name) and _ann_is(n.annotation, K):
+                            typed.add(n.target.id)
+                        elif isinstance(n, ast.Assign) and len(n.targets) == 1 and isinstance(n.targets[0], ast.Name) and _is_record_value(n.value, K, typed, returns):
+                            typed.add(n.targets[0].id)
+                        elif isinstance(n, ast.NamedExpr) and isinstance(n.target, ast.Name) and _is_record_value(n.value, K, typed, returns):
+                            typed.add(n.target.id)
+                typed_by_fn[(K, rel, q)] = typed
+                for n in ast.walk(fnode):
+                    if isinstance(n, ast.Attribute) and n.attr in fields and not _is_record_value(n.value, K, typed, returns) and id(n) not in callfuncs:
+                        # self.<field> of another class is fine when that class is not the record
+                        if isinstance(n.value, ast.Name) and n.value.id in ("self", "cls"):
+                            continue
+                        ambiguous = True
+            # module / class level
+        if ambiguous:
+            del recs[K]
+    if not recs:
+        return set()
     for K, info in recs.items():
         fields = info["fields"]
-        unique = {f: all(not _other_owner(trees, f, K, recs) for _ in [0]) for f in fields}
+        unique = {f: False for f in fields}
 
         def construct(call):
             vals = {}
@@ -685,6 +718,180 @@ def fuse_wrappers(trees, unknown, report):
     return changed
 
 
+# ------------------------------------------------------------------------------------------------ D. import time
+def _bind_simple(fnode, call):
+    """{param: argument expression} for a call that gives every parameter (defaults used), or None"""
+    a = fnode.args
+    if a.kwarg or a.posonlyargs or any(isinstance(x, ast.Starred) for x in call.args) or any(k.arg is None for k in call.keywords):
+        return None
+    params = [x.arg for x in a.args]
+    if len(call.args) > len(params) and not a.vararg:
+        return None
+    out = dict(zip(params, call.args))
+    if a.vararg:
+        out[a.vararg.arg] = ast.Tuple(elts=list(call.args[len(params):]), ctx=ast.Load())
+    kwonly = [x.arg for x in a.kwonlyargs]
+    for k in call.keywords:
+        if k.arg in out or k.arg not in params + kwonly:
+            return None
+        out[k.arg] = k.value
+    for pn, d in zip(params[len(params) - len(a.defaults):], a.defaults):
+        out.setdefault(pn, d)
+    for pn, d in zip(kwonly, a.kw_defaults):
+        if d is not None:
+            out.setdefault(pn, d)
+    if set(out) != set(params + kwonly + ([a.vararg.arg] if a.vararg else [])):
+        return None
+    return out
+
+
+class _SubstLoads(ast.NodeTransformer):
+    def __init__(self, m):
+        self.m = m
+
+    def visit_Name(self, n):
+        if n.id in self.m and isinstance(n.ctx, ast.Load):
+            return copy.deepcopy(self.m[n.id])
+        return n
+
+
+def _simple_arg(e):
+    if isinstance(e, (ast.Constant, ast.Name)):
+        return True
+    if isinstance(e, ast.Attribute):
+        return _simple_arg(e.value)
+    if isinstance(e, (ast.Tuple, ast.List)):
+        return all(_simple_arg(x) for x in e.elts)
+    if isinstance(e, ast.IfExp):
+        return _simple_arg(e.test) and _simple_arg(e.body) and _simple_arg(e.orelse)
+    return False
+
+
+def inline_import_time_helpers(trees, unknown, report):
+    """new private functions that only module-level code uses, in two shapes:
+      * a registering decorator (factory) `def D(k): def register(fn): TABLE[k] = fn; return fn; return register`
+        applied as `@D('x')` to module-level functions:  the definition followed by `TABLE['x'] = <function>`;
+      * a helper called in statement position at module level with simple arguments: its body, parameters replaced
+        (straight-line / if-else bodies without return values)."""
+    changed = set()
+    for rel, tree in trees.items():
+        inside = set()
+        for n in ast.walk(tree):
+            if isinstance(n, (ast.FunctionDef, ast.AsyncFunctionDef, ast.Lambda)):
+                for st in (n.body if isinstance(n.body, list) else [n.body]):
+                    inside |= {id(x) for x in ast.walk(st)}
+        for D in [s for s in tree.body if isinstance(s, ast.FunctionDef)]:
+            if (rel, D.name) not in unknown or D.decorator_list:
+                continue
+            refs = [x for x in ast.walk(tree) if isinstance(x, ast.Name) and x.id == D.name and isinstance(x.ctx, ast.Load)]
+            if not refs or any(id(x) in inside for x in refs):
+                continue
+            if any(isinstance(x, ast.ImportFrom) and any(al.name == D.name for al in x.names) for r2, t2 in trees.items() if r2 != rel for x in ast.walk(t2)):
+                continue
+            body = _strip_doc(D.body)
+            # ---- registering decorator factory / plain registering decorator
+            inner = None
+            factory = False
+            if len(body) == 2 and isinstance(body[0], ast.FunctionDef) and isinstance(body[1], ast.Return) and isinstance(body[1].value, ast.Name) and body[1].value.id == body[0].name and len(body[0].args.args) == 1 and not body[0].decorator_list:
+                inner, factory = body[0], True
+            elif len(D.args.args) == 1 and body and isinstance(body[-1], ast.Return) and isinstance(body[-1].value, ast.Name) and body[-1].value.id == D.args.args[0].arg:
+                inner = D
+            if inner is not None:
+                ib = _strip_doc(inner.body)
+                fn_param = inner.args.args[0].arg
+                if not (ib and isinstance(ib[-1], ast.Return) and isinstance(ib[-1].value, ast.Name) and ib[-1].value.id == fn_param):
+                    inner = None
+                else:
+                    stmts = ib[:-1]
+                    loop_targets = {id(x) for s in stmts for l in ast.walk(s) if isinstance(l, ast.For) for x in ast.walk(l.target)}
+                    if any(isinstance(x, (ast.Return, ast.Yield, ast.YieldFrom, ast.FunctionDef, ast.Lambda)) for s in stmts for x in ast.walk(s)) or any(isinstance(x, ast.Name) and isinstance(x.ctx, (ast.Store, ast.Del)) and id(x) not in loop_targets for s in stmts for x in ast.walk(s)):
+                        inner = None
+            if inner is not None:
+                # every reference is a decorator of a module-level function
+                sites = []
+                ok = True
+                decos = {}
+                for st in tree.body:
+                    if isinstance(st, ast.FunctionDef):
+                        for d in st.decorator_list:
+                            for x in ast.walk(d):
+                                decos[id(x)] = (st, d)
+                for x in refs:
+                    if id(x) not in decos:
+                        ok = False
+                        break
+                    st, d = decos[id(x)]
+                    if factory:
+                        if not (isinstance(d, ast.Call) and d.func is x and all(_simple_arg(a_) for a_ in d.args) and all(_simple_arg(k.value) for k in d.keywords)):
+                            ok = False
+                            break
+                        b = _bind_simple(D, d)
+                        if b is None:
+                            ok = False
+                            break
+                    else:
+                        if d is not x:
+                            ok = False
+                            break
+                        b = {}
+                    if st.decorator_list[-1] is not d and any(True for _ in st.decorator_list[st.decorator_list.index(d) + 1:]):
+                        # decorators below it would see the undecorated function either way; those above see the
+                        # same object (the decorator returns its argument): order does not matter
+                        pass
+                    sites.append((st, d, b))
+                if ok and sites:
+                    new_body = []
+                    for st in tree.body:
+                        new_body.append(st)
+                        for (fst, d, b) in sites:
+                            if fst is st:
+                                m = dict(b)
+                                m[fn_param] = ast.Name(id=st.name, ctx=ast.Load())
+                                for s_ in stmts:
+                                    ns = _SubstLoads(m).visit(copy.deepcopy(s_))
+                                    ast.copy_location(ns, st)
+                                    ast.fix_missing_locations(ns)
+                                    new_body.append(ns)
+                                st.decorator_list = [x for x in st.decorator_list if x is not d]
+                    tree.body = [x for x in new_body if x is not D]
+                    changed.add(rel)
+                    report.append(("inlined-registration-decorator", f"{rel}:{D.name}"))
+                    continue
+            # ---- statement-position helper
+            stmt_calls = [s for s in tree.body if isinstance(s, ast.Expr) and isinstance(s.value, ast.Call) and isinstance(s.value.func, ast.Name) and s.value.func.id == D.name]
+            if len(stmt_calls) != len(refs):
+                continue
+            if any(isinstance(x, (ast.Return, ast.Yield, ast.YieldFrom, ast.FunctionDef, ast.Lambda, ast.Global, ast.Nonlocal)) for s in body for x in ast.walk(s)):
+                continue
+            locals_ = {x.id for s in body for x in ast.walk(s) if isinstance(x, ast.Name) and isinstance(x.ctx, (ast.Store, ast.Del))}
+            if locals_:
+                continue
+            binds = []
+            for s in stmt_calls:
+                b = _bind_simple(D, s.value)
+                if b is None or not all(_simple_arg(v) for v in b.values()):
+                    binds = None
+                    break
+                binds.append(b)
+            if not binds:
+                continue
+            new_body = []
+            for st in tree.body:
+                if st in stmt_calls:
+                    b = binds[stmt_calls.index(st)]
+                    for s_ in body:
+                        ns = _SubstLoads(b).visit(copy.deepcopy(s_))
+                        ast.copy_location(ns, st)
+                        ast.fix_missing_locations(ns)
+                        new_body.append(ns)
+                elif st is not D:
+                    new_body.append(st)
+            tree.body = new_body
+            changed.add(rel)
+            report.append(("inlined-import-time-helper", f"{rel}:{D.name}"))
+    return changed
+
+
 def undo(trees, unknown, report):
     """all three steps; returns the relpaths whose tree changed"""
     from .canon import canonicalise
@@ -701,5 +908,8 @@ def undo(trees, unknown, report):
         c = fuse_wrappers(trees, unknown, report)
         for rel in c:
             canonicalise(trees[rel])
-        changed |= b | c
+        d = inline_import_time_helpers(trees, unknown, report)
+        for rel in d:
+            canonicalise(trees[rel])
+        changed |= b | c | d
     return changed
